@@ -131,7 +131,15 @@ func (g *c03Gen) newPath(valid bool) string {
 	}
 	name := g.names[r.Intn(len(g.names))]
 	if !valid {
-		switch r.Intn(4) {
+		switch r.Intn(6) {
+		case 4, 5:
+			// ".." and "." are ordinary link names in HDF5, not directory navigation: a path
+			// through a component of that name names a member that does not exist
+			comp := []string{"..", ".", "...", ".. "}[r.Intn(4)]
+			if r.Bool() && parent != "/" {
+				return strings.TrimSuffix(parent, "/") + "/" + comp + "/" + name
+			}
+			return "/" + comp + "/" + name
 		case 0: // existing name
 			if ex := g.existing(""); len(ex) > 0 {
 				return ex[r.Intn(len(ex))]
@@ -479,7 +487,7 @@ func c03Run(c *ev.Ctx) {
 var C03 = &ev.Property{
 	ID:    "C03",
 	Level: "exploration",
-	Rule: "each case is a seeded sequence of 1-80 creations (CreateGroup, small CreateDataset, CreateHardLink to datasets/groups/ancestors, CreateSoftLink, CreateExternalLink, CreateDenseGroup with links) over a pool of 3-40 names (short, long enough to fill the 256-byte name heap, UTF-8), depth up to 6, one fifth of the requests deliberately invalid (existing name, missing parent, relative/empty path, missing link target), one fifth of the histories filling one group towards its 32-entry capacity; a tree model decides for every request whether it must succeed, must fail, or sits at a documented capacity limit; after Close and reopen the walked tree (paths, kinds, no duplicate names, hard-linked datasets at the same address) is compared with the model expanded through hard links. " +
+	Rule: "each case is a seeded sequence of 1-80 creations (CreateGroup, small CreateDataset, CreateHardLink to datasets/groups/ancestors, CreateSoftLink, CreateExternalLink, CreateDenseGroup with links) over a pool of 3-40 names (short, long enough to fill the 256-byte name heap, UTF-8), depth up to 6, one fifth of the requests deliberately invalid (existing name, missing parent, relative/empty path, a path through a \"..\" or \".\" component that is no member, missing link target), one fifth of the histories filling one group towards its 32-entry capacity; a tree model decides for every request whether it must succeed, must fail, or sits at a documented capacity limit; after Close and reopen the walked tree (paths, kinds, no duplicate names, hard-linked datasets at the same address) is compared with the model expanded through hard links. " +
 		"non-trivial: >=2 operations; distinct = (superblock, ops/10, nodes/5, op kinds used, ancestor link, capacity edge, fill).",
 	Assumptions: []string{
 		"documented capacity limits (32 entries, 256-byte name heap) make a refusal legitimate ('either'); below 24 entries and with heap room a valid creation must succeed",
